@@ -377,6 +377,15 @@ class Walker(Monitor):
                     ctx.probes["c18_confirmation_decisions_judged"] += 1
         if self.confirm is None or expected is None:
             return
+        # the scale of the confirmation draw is the bound the alias table holds for the sampled offset (times the
+        # charge factor), per unit of time or per unit of length -- unless the handler draws a plain unit variate
+        if self.confirm != 1.0 and proposal is not None:
+            per_time = proposal[0]
+            if abs(self.confirm - per_time) > 1e-6 * per_time and abs(self.confirm - expected) > 1e-6 * expected:
+                ctx.violation("C18", "confirmation_not_against_the_bound_of_the_sampled_offset",
+                              {"upper_limit_of_draw": self.confirm,
+                               "bound_of_sampled_cell_times_charge_factor": expected,
+                               "the_same_times_speed": per_time})
         ctx.probes["c18_confirmations_checked"] += 1
 
     def at_end(self, status):
